@@ -449,6 +449,7 @@ ENTRY_OPTS = ["exclusions", "regex_exclusions", "external_exclusions", "regex_ex
 # where module_path lies (one n-ary symbolic choice): inside root_path, or outside in one of the ways a path can be
 # outside - an unrelated sibling, root_path's parent, a sibling whose NAME extends root_path's name (so that the two
 # path strings share a raw prefix), something below such a sibling, a sibling whose name is a prefix of the root's
+LEVEL_LIMITS = [None, 0, 1, 2]
 MODULE_PLACES = ["root/pkg", "root", "root/pkg/sub", "elsewhere", "", "root_legacy", "root_legacy/tools", "roo", "rootpkg"]
 N_INSIDE = 3
 
@@ -467,9 +468,24 @@ def entry_call(root: str, opts: dict):
     kw["exclude_external_libraries"] = bool(opts["exclude_external_libraries"])
     place = MODULE_PLACES[opts["module_place"]]
     mp = os.path.join(os.path.dirname(root), place) if place else os.path.dirname(root)
+    limit = LEVEL_LIMITS[opts.get("level_limit", 0)]
+    if limit is not None:
+        kw["level_limit"] = limit
     try:
         ev = get_evaluable_architecture(root, mp, **kw)
+    except Exception as e:  # noqa: BLE001
+        return ("ERROR", type(e).__name__)
+    if place != "root/pkg":
         return ("OK", len(ev.modules))
+    # a rule that names root.pkg.sub.k - two levels below module_path root/pkg: absent from the architecture when the
+    # level limit is 0 or 1, present without a limit and with limit 2
+    from pytestarch import Rule
+
+    try:
+        Rule().modules_that().are_named("root.pkg.sub.k").should_not().import_modules_that().are_named("root.pkg").assert_applies(ev)
+        return ("OK", "PASS")
+    except AssertionError:
+        return ("OK", "FAIL")
     except Exception as e:  # noqa: BLE001
         return ("ERROR", type(e).__name__)
 
@@ -480,6 +496,7 @@ def entry_invalid(o: dict) -> bool:
         or (o["regex_external_exclusions"] and o["external_exclusions"])
         or (o["exclude_external_libraries"] and (o["external_exclusions"] or o["regex_external_exclusions"]))
         or o["module_place"] >= N_INSIDE
+        or (MODULE_PLACES[o["module_place"]] == "root/pkg" and LEVEL_LIMITS[o.get("level_limit", 0)] in (0, 1))
     )
 
 
@@ -510,14 +527,16 @@ def work_entry(inst) -> dict:
         def fn():
             opts = {k: ENGINE.branch(("opt", k)) for k in ENTRY_OPTS}
             opts["module_place"] = ENGINE.choice(("opt", "module_place"), len(MODULE_PLACES))
+            opts["level_limit"] = ENGINE.choice(("opt", "level_limit"), len(LEVEL_LIMITS))
             got = entry_call(root, opts)
             return (entry_invalid(opts), got[0])
 
-        summ, funcs, over = explore_fn(fn, 1 << 10)
+        summ, funcs, over = explore_fn(fn, 1 << 12)
         pool = VarPool()
         for k in ENTRY_OPTS:
             pool(("opt", k))
         pool(("opt", "module_place"), len(MODULE_PLACES))
+        pool(("opt", "level_limit"), len(LEVEL_LIMITS))
         bad = summ.formula(lambda o: o[0] and o[1] != "ERROR", pool)
         st, model = solver().check(bad)
         res = {"functions": funcs, "variables_total": len(ENTRY_OPTS), "paths": summ.paths, "forks": summ.forks, "errors": [], "violations": [], "replays": 0, "degenerate": True}
@@ -526,7 +545,7 @@ def work_entry(inst) -> dict:
             res["errors"].append("vacuity: no valid option combination builds an architecture")
         if st == "sat":
             a = pool.model_to_assign(model)
-            opts = {k: a.get(("opt", k), 0) for k in ENTRY_OPTS + ["module_place"]}
+            opts = {k: a.get(("opt", k), 0) for k in ENTRY_OPTS + ["module_place", "level_limit"]}
             payload = {"kind": "entry", "options": opts}
             ok, text, detail = replay_detail(payload)
             res["replays"] += 1
@@ -605,7 +624,7 @@ def run(tier: str, only: str | None = None) -> int:
         "architecture": f"modules {NODES}, every import relation (symbolic)",
         "mutants": "every single deletion, duplication and adjacent transposition of every complete Rule (4-5 calls) and LayerRule (5-6 calls) chain",
         "unknown_names": "misspelt, too deep, bare component, trailing dot, never-matching regexes, too-deep names on a level_limit=1 graph, undefined layers; on subject side, object side and inside a batch; all 12 shapes",
-        "entry_points": "2^5 combinations of option-supplied bits x 9 placements of module_path (3 inside root_path; outside: unrelated sibling, the parent, siblings whose names extend / are a prefix of the root directory's name, a directory below such a sibling)",
+        "entry_points": "2^5 combinations of option-supplied bits x level_limit none / 0 / 1 / 2 (with a rule naming a module two levels below module_path) x 9 placements of module_path (3 inside root_path; outside: unrelated sibling, the parent, siblings whose names extend / are a prefix of the root directory's name, a directory below such a sibling)",
     }
     rep.assumptions = [
         "history dimension is enumerated by the symbolic executor (n-ary choices); the import relation is solver-quantified and, for rejected rules, never inspected",
